@@ -9,7 +9,7 @@ import vxlib  # noqa: E402
 import common  # noqa: E402
 
 NAME = "U3"
-RLIMIT = 20
+RLIMIT = 40
 # functions of Connection that listen calls: contracts proved in U4, assumed here
 CALLEES = ["send_packet", "handle_keep_alive", "apply_encryption", "receive_packet", "keep_alive"]
 
